@@ -19,10 +19,10 @@ echo "== existing tests with the change"
 go test -vet=off -count=1 -skip 'Seed|seed' $PKGS $DEMOPKG 2>&1 | tail -5 | tee $OUT/existing_tests.txt
 echo "== demo with the change (must FAIL)"
 go test -vet=off -count=1 -run 'Seed|seed' $DEMOPKG 2>&1 | tail -4 | tee $OUT/demo_with_change.txt
-git stash -q -- $(git diff --name-only -- . ':(exclude)*zz_seed_demo_test.go')
+git apply -R $OUT/patch.diff || { echo "cannot revert patch in worktree"; exit 2; }
 echo "== demo without the change (must PASS)"
 go test -vet=off -count=1 -run 'Seed|seed' $DEMOPKG 2>&1 | tail -3 | tee $OUT/demo_without_change.txt
-git stash pop -q
+git apply $OUT/patch.diff
 echo "== /verif check $ID $TIER against the change"
 cd /repo && git apply $OUT/patch.diff || { echo "patch does not apply to /repo"; exit 2; }
 cd /verif && timeout 1800 ./bin/vcheck $ID $TIER > $OUT/check_output.txt 2>&1; RC=$?
